@@ -269,13 +269,22 @@ Fixpoint upd {A : Type} (k : nat) (f : A -> A) (l : list A) : list A :=
 Definition step_w (v : variant) (k : nat) (w : world) : world :=
   set_wr (upd k (step_w1 v w) (wr w)) w.
 
-Inductive who := I | R | W (k : nat).
+(* [ConnCloseOther] is an event of the environment: some OTHER connection between the same two
+   peer ids (a stale connection of the initiator's previous incarnation, the spare of a mutual
+   dial) is closed and the responder's disconnect notifications run.  The handshake and the
+   streams of this model live on the connection Connect made.  In the code the notification
+   reaches peerRegistry.Disconnected, which returns at once for a peer without registered
+   connections and otherwise only forgets the closed connection while another one remains;
+   nothing else listens.  In particular the record of handshakes in progress, the registry
+   entry and the wrappers are untouched: the step changes nothing. *)
+Inductive who := I | R | W (k : nat) | ConnCloseOther.
 
 Definition step (v : variant) (c : cfg) (w : world) (a : who) : world :=
   match a with
   | I => step_i c w
   | R => step_r v c w
   | W k => step_w v k w
+  | ConnCloseOther => w
   end.
 
 Definition run_from (v : variant) (c : cfg) (w : world) (sched : list who) : world :=
@@ -307,10 +316,15 @@ Definition opens (n : nat) : list who := repeat I n.
 Definition firsts (n : nat) : list who := map W (seq 0 n).
 Definition rests (n : nat) : list who := flat_map (fun k => [W k; W k]) (seq 0 n).
 
+(* optionally another connection of the initiator's peer id is closed while the responder is held *)
+Definition env (b : bool) : list who := if b then [ConnCloseOther] else [].
 (* streams opened and looked up while the responder is still held before GetAddress *)
-Definition sched_before (n : nat) : list who := hs_prefix ++ opens n ++ firsts n.
-Definition sched_open_before_release (n : nat) : list who :=
-  sched_before n ++ release ++ rests n.
+Definition sched_before_env (b : bool) (n : nat) : list who :=
+  hs_prefix ++ env b ++ opens n ++ firsts n.
+Definition sched_open_before_release_env (b : bool) (n : nat) : list who :=
+  sched_before_env b n ++ release ++ rests n.
+Definition sched_before (n : nat) : list who := sched_before_env false n.
+Definition sched_open_before_release (n : nat) : list who := sched_open_before_release_env false n.
 (* streams opened after the responder finished *)
 Definition sched_open_after_release (n : nat) : list who :=
   hs_prefix ++ release ++ opens n ++ firsts n ++ rests n.
